@@ -160,7 +160,7 @@ def char_chains(nodes, inline):
     out = []
     for chain, n in walk(nodes):
         if n[0] == "text":
-            ch = tuple(c for c in chain if c[0] in inline or inline is None)
+            ch = tuple(c for c in chain if inline is None or c[0] in inline)
             out.extend((c, ch) for c in n[1])
     return out
 
